@@ -5,7 +5,7 @@ from spec import c07 as S
 from checks.nskel import SKELETONS
 
 BOUNDS = {
-    "quick": "18 shared URL skeletons with holes of length 0..1 (0..2 for two host holes and the path hole after a '%') + 5 host skeletons with holes of length 0..2, over all code points; options normalize_amp / strip_suffix / suffix_aware / infer_redirection in {F,T}",
+    "quick": "19 shared URL skeletons with holes of length 0..1 (0..2 for two host holes and the path hole after a '%') + 5 host skeletons with holes of length 0..2, over all code points; options normalize_amp / strip_suffix / suffix_aware / infer_redirection in {F,T}",
     "thorough": "holes of length 0..3 (host skeletons 0..4)",
 }
 STUBS = ["see C01"]
